@@ -1,5 +1,8 @@
 import FluteModel.Lemmas.SessionLife
 import FluteModel.Lemmas.SessionCodec
+import FluteModel.Lemmas.SessionCache
+import FluteModel.Lemmas.SessionCycle
+import FluteModel.Lemmas.SessionCarousel
 /-
   C16 — carousel late join: a receiver that starts listening at any packet boundary delivers every
   carouselled object within two further full cycles.
@@ -134,6 +137,31 @@ theorem late_join_two_cycles_stream (cF cO : Codec) (rc : RxCfg) (s : SessCfg) (
     exact stream_core_empty cF cO rc s o hto hE hall f hfind hfN hflook hfresh ps1 ps2
       (fun p hp => hgenF p (hmem p (List.mem_append_left _ hp))) hwhole hsome
 
+/-- **C16 for the receiver as configured** (packet-cache limit = block limit = `object_max_cache_size`):
+    `late_join_two_cycles_stream` with the resource hypothesis in bytes (`FitsBytes`).  A late joiner that
+    misses a symbol of block 0 must hold every later block until block 0 comes again, so the bytes accounted
+    for ALL blocks have to fit `object_max_cache_size`; a larger object can be lost for ever (finding e2e-2,
+    `object_larger_than_cache_never_delivered`). -/
+theorem late_join_two_cycles_real (cF cO : Codec) (rc : RxCfg) (s : SessCfg) (o : ObjCfg)
+    (hto : o.toi ≠ 0)
+    (hall : ∀ f, f ∈ s.fdts → f.files.contains o.toi = true)
+    (f : FdtCfg) (hfind : s.fdts.find? (fun x => x.id == f.id) = some f)
+    (hfN : f.ks.isEmpty = false) (hflook : f.ks.size ≤ rc.maxLook)
+    (hfresh : blockDone cF.canDecode f.ks s.fdtP [] 0 = false)
+    (stream : List Pkt) (j n : Nat) (ps1 ps2 : List Pkt)
+    (hfit : FitsBytes rc o ((stream.drop j).take n))
+    (hjoin : (stream.drop j).take n = ps1 ++ ps2)
+    (hgenF : ∀ p, p ∈ stream → p.toi = 0 → p.fdtId = f.id → Genuine (fdtObj s f) (toSym p) ∧ p.close = false)
+    (hgenO : o.ks.isEmpty = false → ∀ q, q ∈ osyms o stream → Genuine o q)
+    (hcar : o.ks.isEmpty = false → ∀ q, q ∈ osyms o stream → q.close = false)
+    (hwhole : AllDec cF (fdtObj s f) (fsyms f.id ps1))
+    (hcycle : AllDec cO o (osyms o ps2))
+    (hsome : osyms o ps2 ≠ []) :
+    1 ≤ (observe cF.canDecode cO.canDecode rc s o ((stream.drop j).take n)).completes := by
+  rw [observe_unl cF.canDecode cO.canDecode rc s o hto _ hfit.2.2]
+  exact late_join_two_cycles_stream cF cO (unl rc) s o hto (fits_unl rc o _ hfit) hall f hfind hfN hflook hfresh
+    stream j n ps1 ps2 hjoin hgenF hgenO hcar hwhole hcycle hsome
+
 /-- **C16, session level: sender model ∘ suffix ∘ receiver model.**  The carouselled object's packets in
     the stream all belong to the transfer listing `tr` its block encoder emits when `is_last_transfer`
     is false (`hsrc`); by `emitTransfer_facts` they are genuine and none carries the close-object flag -
@@ -158,6 +186,208 @@ theorem late_join_two_cycles_session (cF cO : Codec) (rc : RxCfg) (s : SessCfg) 
   obtain ⟨a1, _, _, _, a5⟩ := emitTransfer_facts _ (encOK_obj s o false hw hN hblocks) tr h1
   exact late_join_two_cycles_stream_nonempty cF cO rc s o hto hN hfit hall f hfind hfN hflook hfresh stream j n ps1 ps2 hjoin hgenF
     (fun q hq => a1 q (hsrc q hq)) (fun q hq => a5 rfl q (hsrc q hq)) hwhole hcycle hsome
+
+/-! ### the property as stated: two further full cycles -/
+
+/-- **C16: a receiver that joins at ANY packet boundary has every carouselled object within two further
+    full cycles.**  `cycleEnd tois stream i` (Session.lean; the function the model driver and the engine use
+    as the deadline) is the end of the first full cycle from position `i`: the shortest prefix of
+    `stream.drop i` holding, for the FDT (TOI 0) and every carouselled object (`tois`), one complete transfer
+    begun at or after `i`.  For EVERY join offset `j`: if the first full cycle from `j` ends at `d1` and the
+    next one at `d2`, the receiver fed `stream[j .. d2)` has completed the object.
+
+    What is asked of the stream is its carousel shape only: between two consecutive (0,0) packets of the
+    object lies one transfer listing `tr` of the model's block encoder (`hsegO`; every other packet of the
+    object belongs to `tr` too: `hsrc`), and between two consecutive (0,0) FDT packets lies the transfer
+    listing of ONE FDT instance of the session (`hsegF`, `hsrcF`) - proved of the model's own merged stream for
+    every schedule in `Lemmas/SessionCarousel.lean` (`carousel_segsOK`).  FullFDT (every instance lists the
+    object), any decoders meeting the contract, any block structure / parity / interleave window, in-band or
+    FDT-only OTI, the resource bound in bytes (`FitsBytes`; finding e2e-2 beyond it). -/
+theorem late_join_within_two_cycles (cF cO : Codec) (rc : RxCfg) (s : SessCfg) (o : ObjCfg)
+    (hto : o.toi ≠ 0) (hN : o.ks.isEmpty = false) (hw : 1 ≤ s.w)
+    (hblocks : ∀ (b k : Nat), o.ks[b]? = some k → 1 ≤ k ∧ blockFails o.scheme k o.p = false)
+    (tr : List Sym) (h1 : emitTransfer (objEnc s o false) = some tr)
+    (hall : ∀ f, f ∈ s.fdts → f.files.contains o.toi = true)
+    (hfd : ∀ f, f ∈ s.fdts → s.fdts.find? (fun x => x.id == f.id) = some f ∧ f.ks.isEmpty = false ∧
+      f.ks.size ≤ rc.maxLook ∧ blockDone cF.canDecode f.ks s.fdtP [] 0 = false ∧
+      ∀ (b k : Nat), f.ks[b]? = some k → 1 ≤ k ∧ blockFails s.fdtScheme k s.fdtP = false)
+    (stream : List Pkt) (tois : List Nat) (h0 : 0 ∈ tois) (ho : o.toi ∈ tois)
+    (j d1 d2 : Nat) (hc1 : cycleEnd tois stream j = some d1) (hc2 : cycleEnd tois stream d1 = some d2)
+    (hfit : FitsBytes rc o ((stream.drop j).take (d2 - j)))
+    (hsegO : SegsOK (fun p => p.toi == o.toi) (fun L => L.map toSym = tr) stream)
+    (hsrc : ∀ q, q ∈ osyms o stream → q ∈ tr)
+    (hsegF : SegsOK (fun p => p.toi == 0)
+      (fun L => ∃ f, f ∈ s.fdts ∧ (∀ p, p ∈ L → p.fdtId = f.id) ∧ emitTransfer (fdtEnc s f) = some (L.map toSym)) stream)
+    (hsrcF : ∀ f, f ∈ s.fdts → ∃ T, emitTransfer (fdtEnc s f) = some T ∧
+      ∀ p, p ∈ stream → p.toi = 0 → p.fdtId = f.id → toSym p ∈ T) :
+    1 ≤ (observe cF.canDecode cO.canDecode rc s o ((stream.drop j).take (d2 - j))).completes := by
+  obtain ⟨hj1, hs1⟩ := cycleEnd_spec tois stream j d1 hc1
+  obtain ⟨hj2, hs2⟩ := cycleEnd_spec tois stream d1 d2 hc2
+  have hjoin := drop_take_split stream j d1 d2 hj1 hj2
+  -- the FDT instance received whole in the first cycle
+  obtain ⟨A, p0, M, p1, R, hps, hp0, hst0, hp1, hst1, hM, hin⟩ := hs1 0 h0
+  have hstream : stream = (stream.take j ++ A) ++ p0 :: (M ++ p1 :: R) := by
+    rw [List.append_assoc, ← hps, List.take_append_drop]
+  obtain ⟨f, hf, hid, hemit⟩ := hsegF _ p0 M p1 R hstream (by simp [hp0]) hst0 (by simp [hp1]) hst1
+    (by intro q hq hq2; exact hM q hq (by simpa using hq2))
+  obtain ⟨hfind, hfN, hflook, hfresh, hfblocks⟩ := hfd f hf
+  obtain ⟨_, hdecF⟩ := fdt_emit_facts cF s f hw hfN hfblocks _ hemit
+  have hwhole : AllDec cF (fdtObj s f) (fsyms f.id ((stream.drop j).take (d1 - j))) := by
+    apply allDec_mono cF _ _ _ _ hdecF
+    intro q hq
+    obtain ⟨p, hp, rfl⟩ := List.mem_map.mp hq
+    have hp' := hin p hp
+    have ht : p.toi = 0 := by simpa using (List.mem_filter.mp hp).2
+    unfold fsyms
+    exact List.mem_map.mpr ⟨p, List.mem_filter.mpr ⟨hp', by simp [ht, hid p hp]⟩, rfl⟩
+  -- one whole transfer of the object in the second cycle
+  obtain ⟨A2, q0, M2, q1, R2, hps2, hq0, hst2, hq1, hst3, hM2, hin2⟩ := hs2 o.toi ho
+  have hstream2 : stream = (stream.take d1 ++ A2) ++ q0 :: (M2 ++ q1 :: R2) := by
+    rw [List.append_assoc, ← hps2, List.take_append_drop]
+  have htr := hsegO _ q0 M2 q1 R2 hstream2 (by simp [hq0]) hst2 (by simp [hq1]) hst3
+    (by intro q hq hq2; exact hM2 q hq (by simpa using hq2))
+  have hTok := transferOK_of_emit cO s o false hw hN hblocks tr h1
+  have hsub : ∀ q, q ∈ tr → q ∈ osyms o ((stream.drop d1).take (d2 - d1)) := by
+    intro q hq
+    rw [← htr] at hq
+    obtain ⟨p, hp, rfl⟩ := List.mem_map.mp hq
+    have ht : p.toi = o.toi := by simpa using (List.mem_filter.mp hp).2
+    exact mem_osyms.mpr ⟨p, hin2 p hp, ht, rfl⟩
+  have hcycle : AllDec cO o (osyms o ((stream.drop d1).take (d2 - d1))) := allDec_mono cO _ _ _ hsub hTok.dec
+  have hsome : osyms o ((stream.drop d1).take (d2 - d1)) ≠ [] := by
+    obtain ⟨x, rest, hT, _⟩ := hTok.first
+    have := hsub x (by rw [hT]; exact List.mem_cons_self ..)
+    intro hnil; rw [hnil] at this; simp at this
+  obtain ⟨a1, _, _, _, a5⟩ := emitTransfer_facts _ (encOK_obj s o false hw hN hblocks) tr h1
+  -- the packets of the FDT instance are genuine
+  obtain ⟨T, hT, hTm⟩ := hsrcF f hf
+  obtain ⟨hgF, _⟩ := fdt_emit_facts cF s f hw hfN hfblocks T hT
+  exact late_join_two_cycles_real cF cO rc s o hto hall f hfind hfN hflook hfresh stream j (d2 - j) _ _ hfit hjoin
+    (fun p hp ht hi => hgF _ (hTm p hp ht hi))
+    (fun _ q hq => a1 q (hsrc q hq)) (fun _ q hq => a5 rfl q (hsrc q hq)) hwhole hcycle hsome
+
+/-- a transfer listing of the model's block encoder begins with its (0,0) packet and holds no other -/
+theorem emit_oneStart (e : Enc) (he : EncOK e) (T : List Sym) (h : emitTransfer e = some T) : OneStart T := by
+  obtain ⟨_, _, _, ⟨c, T', hT, hT'⟩, _⟩ := emitTransfer_facts e he T h
+  refine ⟨_, T', hT, rfl, ?_⟩
+  intro q hq
+  have := hT' q hq
+  unfold isStartS
+  cases h1 : (q.sbn == 0) <;> cases h2 : (q.esi == 0) <;> simp_all
+
+/-- **C16 on the model's own merged stream, for EVERY schedule.**  `stream = buildStream srcs sched`: the
+    scheduler's interleaving `sched` is arbitrary (it is read off the implementation by the driver); the
+    object is a carousel source, the session publishes ONE FDT instance `f` (FullFDT, a single `publish`).
+    The carousel shape asked by `late_join_within_two_cycles` is then a theorem (`carousel_segsOK`): for every
+    join offset `j`, if two further full cycles `d1`, `d2` exist in the stream, the receiver fed
+    `stream[j .. d2)` has the object. -/
+theorem late_join_within_two_cycles_built (cF cO : Codec) (rc : RxCfg) (s : SessCfg) (o : ObjCfg)
+    (hto : o.toi ≠ 0) (hN : o.ks.isEmpty = false) (hw : 1 ≤ s.w)
+    (hblocks : ∀ (b k : Nat), o.ks[b]? = some k → 1 ≤ k ∧ blockFails o.scheme k o.p = false)
+    (tr trF : List Sym) (h1 : emitTransfer (objEnc s o false) = some tr)
+    (f : FdtCfg) (hfs : s.fdts = [f]) (hlists : f.files.contains o.toi = true)
+    (hfN : f.ks.isEmpty = false) (hflook : f.ks.size ≤ rc.maxLook)
+    (hfresh : blockDone cF.canDecode f.ks s.fdtP [] 0 = false)
+    (hfblocks : ∀ (b k : Nat), f.ks[b]? = some k → 1 ≤ k ∧ blockFails s.fdtScheme k s.fdtP = false)
+    (h2 : emitTransfer (fdtEnc s f) = some trF)
+    (sched : List Slot) (srcs : List Src) (stream : List Pkt)
+    (hb : buildStream srcs sched = some stream)
+    (hno0 : ∀ k, k ∈ sched → k ≠ Slot.obj 0)
+    (hone : ∀ id, Slot.fdt id ∈ sched → id = f.id)
+    (xo : Src) (hxo : findSrc srcs (Slot.obj o.toi) = some xo) (hco : xo.carousel = true) (htro : xo.tr = tr) (hro : xo.rest = [])
+    (xf : Src) (hxf : findSrc srcs (Slot.fdt f.id) = some xf) (hcf : xf.carousel = true) (htrf : xf.tr = trF) (hrf : xf.rest = [])
+    (tois : List Nat) (h0 : 0 ∈ tois) (ho : o.toi ∈ tois)
+    (j d1 d2 : Nat) (hc1 : cycleEnd tois stream j = some d1) (hc2 : cycleEnd tois stream d1 = some d2)
+    (hfit : FitsBytes rc o ((stream.drop j).take (d2 - j))) :
+    1 ≤ (observe cF.canDecode cO.canDecode rc s o ((stream.drop j).take (d2 - j))).completes := by
+  have hselO : ∀ sy, (fun p : Pkt => p.toi == o.toi) (mkPkt (Slot.obj o.toi) sy) = true := by
+    intro sy; simp [mkPkt]
+  have hothO : ∀ k', k' ∈ sched → k' ≠ Slot.obj o.toi → ∀ sy, (fun p : Pkt => p.toi == o.toi) (mkPkt k' sy) = false := by
+    intro k' _ hk' sy
+    cases k' with
+    | fdt id => simp only [mkPkt]; exact beq_false_of_ne (fun h => hto h.symm)
+    | obj t => simp only [mkPkt]; exact beq_false_of_ne (fun h => hk' (by rw [h]))
+  have hselF : ∀ sy, (fun p : Pkt => p.toi == 0) (mkPkt (Slot.fdt f.id) sy) = true := by
+    intro sy; simp [mkPkt]
+  have hothF : ∀ k', k' ∈ sched → k' ≠ Slot.fdt f.id → ∀ sy, (fun p : Pkt => p.toi == 0) (mkPkt k' sy) = false := by
+    intro k' hk hk' sy
+    cases k' with
+    | fdt id => exact absurd (by rw [hone id hk]) hk'
+    | obj t => simp only [mkPkt]; exact beq_false_of_ne (fun h => hno0 _ hk (by rw [h]))
+  have hokO := encOK_obj s o false hw hN hblocks
+  have hneF : f.ks.size ≠ 0 := by
+    intro h0
+    have := Array.isEmpty_iff_size_eq_zero.mpr h0
+    rw [this] at hfN; exact absurd hfN (by simp)
+  have hokF : EncOK (fdtEnc s f) := ⟨hw, by simp only [fdtEnc]; omega, hfblocks⟩
+  have hfmem : ∀ g, g ∈ s.fdts → g = f := by intro g hg; rw [hfs] at hg; simpa using hg
+  -- every TOI-0 packet of the stream belongs to instance f
+  have hid : ∀ p, p ∈ stream → p.toi = 0 → p.fdtId = f.id := by
+    intro p hp ht
+    obtain ⟨k, sy, hk, rfl⟩ := buildStream_mem sched srcs stream hb p hp
+    cases k with
+    | fdt id => simp only [mkPkt]; exact hone id hk
+    | obj t => simp only [mkPkt] at ht; exact absurd (by rw [ht]) (hno0 _ hk)
+  have hsegF0 := carousel_segsOK (Slot.fdt f.id) (fun p : Pkt => p.toi == 0) hselF trF (emit_oneStart _ hokF trF h2) sched srcs stream hothF hb
+    xf hxf hcf htrf hrf
+  refine late_join_within_two_cycles cF cO rc s o hto hN hw hblocks tr h1 ?_ ?_ stream tois h0 ho j d1 d2 hc1 hc2 hfit
+    (carousel_segsOK (Slot.obj o.toi) (fun p : Pkt => p.toi == o.toi) hselO tr (emit_oneStart _ hokO tr h1) sched srcs stream hothO hb xo hxo hco htro hro)
+    ?_ ?_ ?_
+  · intro g hg; rw [hfmem g hg]; exact hlists
+  · intro g hg
+    rw [hfmem g hg]
+    exact ⟨by rw [hfs]; simp, hfN, hflook, hfresh, hfblocks⟩
+  · intro q hq
+    exact carousel_mem (Slot.obj o.toi) (fun p : Pkt => p.toi == o.toi) hselO tr sched srcs stream hothO hb xo hxo hco htro hro q hq
+  · intro A p0 M p1 R hst a1 a2 a3 a4 a5
+    refine ⟨f, by rw [hfs]; simp, ?_, ?_⟩
+    · intro p hp
+      obtain ⟨hpm, hps⟩ := List.mem_filter.mp hp
+      have : p ∈ stream := by
+        rw [hst]
+        rcases List.mem_cons.mp hpm with rfl | hpm
+        · simp
+        · simp [hpm]
+      exact hid p this (by simpa using hps)
+    · rw [hsegF0 A p0 M p1 R hst a1 a2 a3 a4 a5]; exact h2
+  · intro g hg
+    rw [hfmem g hg]
+    refine ⟨trF, h2, ?_⟩
+    intro p hp ht _
+    apply carousel_mem (Slot.fdt f.id) (fun p : Pkt => p.toi == 0) hselF trF sched srcs stream hothF hb xf hxf hcf htrf hrf
+    exact List.mem_map.mpr ⟨p, List.mem_filter.mpr ⟨hp, by simp [ht]⟩, rfl⟩
+
+/-! ### finding e2e-2: an object larger than the cache, joined late -/
+
+/-- four blocks of two No-Code symbols, 8 bytes each (carouselled: no close-object flag) -/
+def bigObj : ObjCfg :=
+  { toi := 1, scheme := .nocode, ks := #[2, 2, 2, 2], blen := #[8, 8, 8, 8], p := 0, inbandFti := true, transfers := 1,
+    carousel := true, noCache := false, pktLen := 36, lastPktLen := 36 }
+/-- `object_max_cache_size` = 16 bytes = two blocks -/
+def smallRc : RxCfg := { receiveOnce := true, maxSize := 16, pktCap := some 16 }
+def cyc : List Ev :=
+  [.pkt ⟨0, 0, false⟩, .pkt ⟨0, 1, false⟩, .pkt ⟨1, 0, false⟩, .pkt ⟨1, 1, false⟩,
+   .pkt ⟨2, 0, false⟩, .pkt ⟨2, 1, false⟩, .pkt ⟨3, 0, false⟩, .pkt ⟨3, 1, false⟩]
+/-- joined right after the first packet of the object: the rest of that cycle, then five full cycles, an FDT
+    instance listing the object before each of them -/
+def lateBig : List Ev :=
+  .fdt true :: cyc.drop 1 ++ (.fdt true :: cyc) ++ (.fdt true :: cyc) ++ (.fdt true :: cyc) ++ (.fdt true :: cyc) ++ (.fdt true :: cyc)
+
+set_option maxRecDepth 16384 in
+/-- **Negation witness of the resource hypothesis (finding e2e-2, `C16:object-larger-than-cache`).**  The object
+    (32 bytes, 4 blocks) is twice the cache (16 bytes, 2 blocks): block 0 is incomplete after the join, blocks
+    0 and 1 are held, the first packet of block 2 trips the block-allocation limit - the object is dropped and
+    re-created from the next packet; two blocks later the limit trips again, on the first packet of block 0 of
+    the next cycle: the receiver is phase-locked and the object is NOT delivered after five further full
+    cycles (nor ever).  The receiver that joined one packet earlier gets it in the first cycle, and with a
+    cache that holds the object (`FitsBytes`) the late joiner gets it in the first full cycle.  Replayed on the
+    real receiver at this scale (engine e2e) and at the default 10 MiB with a 21 MB object (reviewer). -/
+theorem object_larger_than_cache_never_delivered :
+    (runObj (canDecodeOf .nocode) smallRc bigObj {} lateBig).completes = 0 ∧
+    0 < (runObj (canDecodeOf .nocode) smallRc bigObj {} lateBig).errors ∧
+    (runObj (canDecodeOf .nocode) smallRc bigObj {} (.fdt true :: cyc)).completes = 1 ∧
+    (runObj (canDecodeOf .nocode) { smallRc with maxSize := 32 } bigObj {} (.fdt true :: cyc.drop 1 ++ (.fdt true :: cyc))).completes = 1 := by
+  refine ⟨by decide, by decide, by decide, by decide⟩
 
 /-! ### D14 (repaired): the empty object -/
 
